@@ -1,14 +1,22 @@
 """C02 -- see harness/runfam.py (shared run-family correspondence + oracle_c02); plus harness/delayed_cli.py
-(tasks created at run time by create_after creators, through the real command line)."""
-import runfam, delayed_cli
+(tasks created at run time by create_after creators, through the real command line); plus harness/c02_api.py
+(the selection given through doit.api.run_tasks as a dict name -> options: positional values that are absent /
+None / empty / non-empty for tasks with pos_arg at every position of the dict, every runner; judged on the closure
+computed from the declared case and compared with Model/ApiSelect.v)."""
+import json
+import runfam, delayed_cli, c02_api
 
 
 def run(ctx):
     out = runfam.run_property(ctx, 'C02')
     delayed_cli.delayed_cli_part(ctx, out, 'C02')
+    c02_api.api_part(ctx, out)
     return out
 
 
 def replay(ctx, payload):
-    print(payload)
+    case = payload.get('case') if isinstance(payload, dict) else None
+    if isinstance(case, dict) and case.get('part') == 'api':
+        return c02_api.replay_case(ctx, case)
+    print(json.dumps(payload, indent=1, default=str) if isinstance(payload, dict) else payload)
     return 0
